@@ -9,6 +9,7 @@ import (
 	"pgregory.net/rapid"
 
 	"github.com/scrapli/scrapligo/driver/netconf"
+	"github.com/scrapli/scrapligo/driver/opoptions"
 	"github.com/scrapli/scrapligo/driver/options"
 	"github.com/scrapli/scrapligo/response"
 
@@ -189,7 +190,7 @@ func runDrv(c DrvCase) ev.Verdict {
 	}
 
 	srv := &sim.NCServer{
-		Hello:   sim.HelloSpec{Caps: caps, SessionID: "7", Layout: "pretty", TrailLF: c.HelloLF}.Render(),
+		Hello:   sim.HelloSpec{Caps: append(append([]string{}, caps...), sim.StdCaps...), SessionID: "7", Layout: "pretty", TrailLF: c.HelloLF}.Render(),
 		Version: c.Version,
 		Echo:    c.Echo,
 
@@ -258,7 +259,7 @@ func runDrv(c DrvCase) ev.Verdict {
 		case "get-config":
 			r, err = d.GetConfig("running")
 		default:
-			r, err = d.RPC()
+			r, err = d.RPC(opoptions.WithFilter("<get-schema-list/>"))
 		}
 
 		if err != nil {
